@@ -19,11 +19,14 @@ def main():
     from snooty.n import FileId
     from snooty.parser import JSONVisitor, parse_rst
     from snooty.types import ProjectConfig
-    cfg = ProjectConfig(Path("/nonexistent-c05-history"), "c05")
+    # one configuration per default domain: the same process may serve projects with different default domains (language server,
+    # tests, tools); the document's own domain is fixed, only what was parsed BEFORE it varies between the runs
+    domains = req.get("domains") or [None] * len(req["docs"])
+    cfgs = {d: ProjectConfig(Path("/nonexistent-c05-history"), "c05", default_domain=d) for d in set(domains)}
     out = {}
     for i in req["order"]:
         text = req["docs"][i]
-        parser = rstparser.Parser(cfg, JSONVisitor)
+        parser = rstparser.Parser(cfgs[domains[i]], JSONVisitor)
         try:
             page, diags = parse_rst(parser, FileId(f"d{i}.txt"), text)[0]
             out[str(i)] = {"ast": page.ast.serialize(), "diags": sorted([type(d).__name__, d.start[0], d.message] for d in diags)}
